@@ -156,12 +156,23 @@ func Check_Publish() {
 	ch := make(chan *entities.Message, 4)
 	var in []msgIn
 	for i := 0; i < nmsg; i++ {
-		m := msgIn{exportTime: sx.U32("exportTime"), seq: sx.U32("seq"), dom: sx.U32("domain"), addr: []string{"10.1.1.1", "2001:db8::9"}[sx.Choose("exportAddr", 2)]}
+		m := msgIn{exportTime: sx.U32("exportTime"), seq: sx.U32("seq"), dom: sx.U32("domain"), addr: "10.1.1.1"}
+		third := i == 2 // the third message of a thorough stream varies less (0.46 M streams otherwise)
+		if !third {
+			m.addr = []string{"10.1.1.1", "2001:db8::9"}[sx.Choose("exportAddr", 2)]
+		}
 		if sx.Choose("kind", 2) == 0 {
 			m.isTemplate = true
 		} else {
-			n := sx.Range("records", 0, 2)
-			v6 := sx.Choose("ipv6", 2) == 1
+			maxRecs := 2
+			v6 := false
+			if third {
+				maxRecs = 1
+			}
+			n := sx.Range("records", 0, maxRecs)
+			if !third {
+				v6 = sx.Choose("ipv6", 2) == 1
+			}
 			for j := 0; j < n; j++ {
 				r := drawRec(v6)
 				// the second message of a stream uses another element order under the
